@@ -43,6 +43,9 @@ pub struct Driver {
     pub dup_timers: bool,
     pub stats: DriverStats,
     pub peers_hi: u16,
+    /// every address a record was ever held for (moving onto one of them would make the instance share an address
+    /// with a member it has talked about: the user's mistake, not foca's)
+    pub seen_addrs: std::collections::BTreeSet<u16>,
 }
 
 #[derive(Default, Clone, Debug)]
@@ -117,6 +120,7 @@ impl Driver {
             dup_timers: !arm.c13,
             stats: Default::default(),
             peers_hi: 5,
+            seen_addrs: Default::default(),
         }
     }
 
@@ -321,7 +325,7 @@ impl Driver {
                     // never onto an address somebody else is known to hold (that would be two members on one
                     // address: the user's mistake, not foca's)
                     let cand = *self.r.pick(&[0u16, 6, 7]);
-                    if self.node.last.state.iter().any(|m| m.id().addr == cand && m.state() != State::Down) {
+                    if self.seen_addrs.contains(&cand) || self.node.last.state.iter().any(|m| m.id().addr == cand) {
                         me.addr
                     } else {
                         cand
@@ -381,6 +385,9 @@ impl Driver {
         }
         if rec.post.state.iter().any(|m| m.id().addr == rec.post.id.addr) {
             self.stats.own_addr_records += 1;
+        }
+        for m in &rec.post.state {
+            self.seen_addrs.insert(m.id().addr);
         }
         for (t, after) in rec.scheds() {
             self.seq += 1;
